@@ -12,6 +12,7 @@ import CassisModel.Model.Heap
 import CassisModel.Model.Cas
 import CassisModel.Model.Traverse
 import CassisModel.Gen.Builtins
+import CassisModel.Spec.BuiltinChecks
 
 open Lean Cassis
 
@@ -139,7 +140,9 @@ def casTsOf (ci : Nat) : M (Nat × TS.TypeSystem) := do
 
 def liftP {α} (p : P α) : M α := match p with | .ok a => pure a | .error _ => throw "bad-op"
 
-def jEntry (e : Index.Entry) : Json := Json.arr #[jInt e.b, jInt e.e, jNat e.oid]
+def jEntry (e : Index.Entry) : Json :=
+  if e.b = Index.NONE_KEY then Json.arr #[Json.null, Json.null, jNat e.oid]
+  else Json.arr #[jInt e.b, jInt e.e, jNat e.oid]
 
 def res {α} (r : Except Err α) (f : α → M Json) : M Json :=
   match r with
@@ -189,20 +192,13 @@ def newFs (ts : TS.TypeSystem) (ti : Nat) (tyName : String) (xid : Option Int) (
 def docAnnotation (ci : Nat) (h : Handle) : M (Except Err Nat) := do
   let (ti, ts) ← casTsOf ci
   let c ← getCas ci
-  match Cas.select ts c h TS.DOCUMENT_ANNOTATION with
+  let w ← get
+  match Cas.getDocumentAnnotation ts ti ci c w.heap h with
   | .error e => pure (.error e)
-  | .ok (e :: _) => pure (.ok e.oid)
-  | .ok [] =>
-    match ← newFs ts ti TS.DOCUMENT_ANNOTATION none [] with
-    | .error e => pure (.error e)
-    | .ok a =>
-      let w ← get
-      match Cas.add ts ci c w.heap h a true with
-      | .error e => pure (.error e)
-      | .ok (c', hp') =>
-        set { w with heap := hp' }
-        setCas ci c'
-        pure (.ok a)
+  | .ok (c', hp', a) =>
+    set { w with heap := hp' }
+    setCas ci c'
+    pure (.ok a)
 
 def splitPath (p : String) : List String := p.splitOn "."
 
@@ -525,6 +521,8 @@ def handleLine (line : String) : String :=
       match fldArr j "ops" with
       | .ok ops => (Json.mkObj [("res", Json.arr (runSession ops).toArray)]).compress
       | .error _ => (jErr "bad-op").compress
+    | .ok "selfcheck" =>
+      (Json.mkObj [("ok", Json.mkObj (Gen.builtinSelfCheck.map (fun p => (p.1, Json.bool p.2))))]).compress
     | .ok "offsets" => (match runOffsets j with | .ok r => r | .error _ => jErr "bad-op").compress
     | .ok "covered" => (match runCovered j with | .ok r => r | .error _ => jErr "bad-op").compress
     | .ok _ => (jErr "bad-op").compress
